@@ -267,8 +267,8 @@ mod verif_c03_twins {
         && (r.1, r.2, r.3, r.4) == (i4, i3, i2, i1)
         && (r.0 >> 39) & 0x1ff == i4 as u64 && (r.0 >> 30) & 0x1ff == i3 as u64
         && (r.0 >> 21) & 0x1ff == i2 as u64 && (r.0 >> 12) & 0x1ff == i1 as u64
-        && r.0 & 0xfff == 0)
-        && ob("C03.Page_from_page_table_indices.valid", canonical(r.0) && r.0 % 4096 == 0))]
+        && r.0 & 0xfff == 0))]
+    #[kani::ensures(|r: &(u64, u16, u16, u16, u16)| ob("C03.Page_from_page_table_indices.valid", canonical(r.0) && r.0 % 4096 == 0))]
     fn w_from_indices_4k(i4: u16, i3: u16, i2: u16, i1: u16) -> (u64, u16, u16, u16, u16) {
         let p = Page::from_page_table_indices(
             PageTableIndex::new(i4),
@@ -298,8 +298,8 @@ mod verif_c03_twins {
         r.0 == sext48((i4 as u64) << 39 | (i3 as u64) << 30 | (i2 as u64) << 21)
         && (r.1, r.2, r.3) == (i4, i3, i2)
         && (r.0 >> 39) & 0x1ff == i4 as u64 && (r.0 >> 30) & 0x1ff == i3 as u64 && (r.0 >> 21) & 0x1ff == i2 as u64
-        && r.0 & 0x1f_ffff == 0)
-        && ob("C03.Page_from_page_table_indices_2mib.valid", canonical(r.0) && r.0 % 0x20_0000 == 0))]
+        && r.0 & 0x1f_ffff == 0))]
+    #[kani::ensures(|r: &(u64, u16, u16, u16)| ob("C03.Page_from_page_table_indices_2mib.valid", canonical(r.0) && r.0 % 0x20_0000 == 0))]
     fn w_from_indices_2m(i4: u16, i3: u16, i2: u16) -> (u64, u16, u16, u16) {
         let p = Page::from_page_table_indices_2mib(
             PageTableIndex::new(i4),
@@ -327,8 +327,8 @@ mod verif_c03_twins {
         r.0 == sext48((i4 as u64) << 39 | (i3 as u64) << 30)
         && (r.1, r.2) == (i4, i3)
         && (r.0 >> 39) & 0x1ff == i4 as u64 && (r.0 >> 30) & 0x1ff == i3 as u64
-        && r.0 & 0x3fff_ffff == 0)
-        && ob("C03.Page_from_page_table_indices_1gib.valid", canonical(r.0) && r.0 % 0x4000_0000 == 0))]
+        && r.0 & 0x3fff_ffff == 0))]
+    #[kani::ensures(|r: &(u64, u16, u16)| ob("C03.Page_from_page_table_indices_1gib.valid", canonical(r.0) && r.0 % 0x4000_0000 == 0))]
     fn w_from_indices_1g(i4: u16, i3: u16) -> (u64, u16, u16) {
         let p = Page::from_page_table_indices_1gib(PageTableIndex::new(i4), PageTableIndex::new(i3));
         (p.start_address().as_u64(), p.p4_index().into(), p.p3_index().into())
